@@ -99,6 +99,7 @@ class Waiting(process_states.Waiting):
     def _awaitable_done(self, awaitable: asyncio.Future) -> None:
         keys = self._awaiting.pop(awaitable)
         key = keys[0]
+        self._replace_cancelled_wait()
         try:
             result = awaitable.result()
             for key in keys:
